@@ -479,6 +479,12 @@ def run_scenario(sc, workroot=None):
                 keys.append(k)
         # the submitted task's own checksum: the first job that acquired a lock in any child
         key = keys[0] if keys else "-"
+        if key == "-":
+            # nobody took the lock (every submitter was served without it): any keyed label, else the directory
+            key = next((k for pid, _, l, k in tr if k != "-" and pid in children), "-")
+        if key == "-":
+            dirs = [d for d in sorted(os.listdir(cache)) if os.path.isdir(os.path.join(cache, d))]
+            key = dirs[0] if dirs else "-"
         g = observe_cache(cache, key) if key != "-" else None
         ev = events_for(tr, children, key)
         runs_all = open(side).read().split()
@@ -503,7 +509,7 @@ def run_scenario(sc, workroot=None):
 
 def case_literal(sc, res, bv):
     """Gallina literal of type Model.CacheProto.trace_case for a finished scenario."""
-    g = res["cache"]
+    g = res["cache"] or dict(lock=False, slock=False, dir=False, job=0, res=0, err=0, infos=0)
     runs = res["runs"]        # the preparatory run, if any, left one line as well (= the model's initial runs := 1)
     gl = "(%s, %s, %s, %d, %d, %d, %d, %d)" % (
         "true" if g["lock"] else "false", "true" if g["slock"] else "false", "true" if g["dir"] else "false",
